@@ -15,7 +15,9 @@ THOROUGH_SCALE = 1.0
 SERIAL = os.environ.get("VERIF_TIER") == "quick"   # heavily loaded machine: a forked pool is slower than one process
 TECHNIQUE = ("model-based generation of event histories with shutdown injected at a generated point (Hypothesis) over the "
              "real Cluster/Session/ControlConnection/pools/scheduler on a deterministic simulated network in which a "
-             "connection attempt takes virtual time; the fake network's own list of sockets is the reference")
+             "connection attempt and the answer to a USE take virtual time; a third of the histories is laid out by "
+             "construction so that a keyspace change and the shutdown each land in a generated phase of a pool's "
+             "construction; the fake network's own list of sockets is the reference")
 RULE = ("A case is 1-3 fake nodes whose connection attempts take 0 or 0.5 virtual seconds, 1-2 sessions (the first connect() "
         "and a later second connect() run as client threads, so they may still be in progress), protocol 4 or 2, default or "
         "never-convicting conviction policy, ConstantReconnectionPolicy(1 s), and a generated prefix of events: a pool "
@@ -23,19 +25,36 @@ RULE = ("A case is 1-3 fake nodes whose connection attempts take 0 or 0.5 virtua
         "sent (answered or left unanswered), a pool connection with a request in flight is closed by the peer with nothing "
         "run before the next step (so the pool's reaction is still queued when shutdown starts), the clock advances by 0.1-1.6 s; optionally the connection class has orphaned_threshold=2 and the history ends with "
         "requests that time out on the client (orphaned streams) followed by newer requests, so that the connection is replaced "
-        "and parked in the pool's trash; the peer's closes are resets or orderly closes (EOF).  Then Cluster.shutdown() or "
+        "and parked in the pool's trash; the peer's closes are resets or orderly closes (EOF).  "
+        "Keyspaces: connect() is given no keyspace or 'ks1', the nodes answer a USE on a pool connection after 0 / 0.1 / 0.3 / "
+        "0.5 virtual seconds, and 'use' events send USE ks1/ks2 through a session (what Session.set_keyspace sends; the "
+        "answer changes the session's keyspace and makes every pool re-select it).  One case in three is a race layout "
+        "(2-3 nodes): after a short generated prefix a pool is (re)created for a host other than the contact point (it "
+        "leaves and rejoins the ring, or goes down and is announced UP), a USE is timed so that the session's keyspace "
+        "changes in a generated phase of that pool's construction (connecting / selecting the keyspace it found / later) at "
+        "a generated fraction of the phase, and the shutdown is timed into a generated phase (connecting / selecting / "
+        "catching up with the changed keyspace / installed) likewise; phase lengths follow from the case's connect "
+        "delay, USE delay and protocol version.  Then Cluster.shutdown() or "
         "Session.shutdown() runs as another client thread, a few more events follow, 12 virtual seconds pass, a request "
         "and a connect() are attempted, and finally the cluster is shut down.  A schedule tape picks the runnable virtual "
         "thread at every choice point.  Non-trivial: at least one connection attempt (initial connect, pool creation, "
-        "replacement, reconnection, control reconnection) was in progress when shutdown was called.  Distinct by case digest.")
+        "replacement, reconnection, control reconnection) was in progress when shutdown was called, or an open connection that "
+        "is not yet part of any session's pool (pool under construction, replacement connection) was waiting for the "
+        "answer to a USE at that moment.  Distinct by case digest.  Labels: cls:use-in-flight-at-shutdown, "
+        "cls:use-in-flight-on-uninstalled-connection-at-shutdown, cls:keyspace-catch-up-at-shutdown (second USE on such a "
+        "connection), selecting:<opening thread>, race:change-phase / race:shutdown-phase / race:<trigger>, keyspace=, use_delay=.")
 ASSUMPTIONS = ["network, clock, executor and event loop are simulated (sim/); Cluster, Session, ControlConnection, pools, "
                "scheduler, reconnection handlers are the real classes",
                "the connection class is subclassed only to log when (and on which virtual thread) a connection attempt starts",
-               "quiescence = 12 virtual seconds after shutdown (connect delay 0.5 s, reconnection delay 1 s, connect_timeout 5 s)",
+               "quiescence = 12 virtual seconds after shutdown (connect delay 0.5 s, USE delay <= 0.5 s, reconnection delay 1 s, "
+               "connect_timeout 5 s)",
+               "a delayed USE answer is the node's default answer sent by a virtual timer (on_request wrapper in this module); "
+               "every keyspace exists; USE is sent with execute_async (Session.set_keyspace = execute of the same statement)",
                "Cluster.sessions (a WeakSet iterated in memory-address order) is replaced by an insertion-ordered set and executor futures hash by creation number "
                "(the driver keeps them in sets and blocks on whichever the set yields first) so that a case replays identically"]
 
 ADV = [0.1, 0.3, 0.5, 0.6, 1.0, 1.2, 1.6]
+KS = ["ks1", "ks2", "ks2"]
 
 
 def s_case(gran):
@@ -52,8 +71,9 @@ def s_case(gran):
         st.tuples(st.just("connect2")),
         st.tuples(st.just("query"), h, st.booleans()),
         st.tuples(st.just("die_now"), h),
+        st.tuples(st.just("use"), st.integers(0, 1), st.sampled_from(KS), h),
     ).map(list)
-    return st.fixed_dictionaries({
+    base = {
         "pv": st.sampled_from([4, 4, 4, 2]),
         "hosts": st.integers(1, 3),
         "delays": st.lists(st.sampled_from([0.0, 0.5, 0.5]), min_size=3, max_size=3),
@@ -68,13 +88,76 @@ def s_case(gran):
                                       st.sampled_from([0.0, 0.1, 0.6]), st.integers(1, 2)).map(
                                 lambda t: t[0] + [["query", t[1], True]] * 2 + [["advance", t[2]]] +
                                 [["query", t[1], True]] * t[4] + ([["advance", t[3]]] if t[3] else []))),
+        # the keyspace given to connect() (None = no keyspace) and the virtual seconds a node takes to answer a USE on a
+        # pool connection (so that selecting a keyspace is something a shutdown can overlap with)
+        "keyspace": st.sampled_from([None, "ks1", "ks1"]),
+        "use_delay": st.sampled_from([0.0, 0.1, 0.3, 0.3, 0.5]),
         "orphan_threshold": st.sampled_from([None, 2, 2]),
         "orderly": st.booleans(),
         "shutdown": st.sampled_from(["cluster", "cluster", "session"]),
         "after": st.lists(ev, max_size=3),
         "tape": st.lists(st.integers(0, 3), max_size=40 if gran == "locks" else 10),
         "gran": st.just(gran),
+    }
+    # a pool is created for a host that (re)joins the ring or is announced UP again, and both a keyspace change of the
+    # session and the shutdown are aimed at a phase of that pool's construction: connecting / selecting the keyspace it
+    # found / catching up with a keyspace that changed meanwhile / installed (see _lay_out_race)
+    frac = st.sampled_from([0.0, 0.25, 0.5, 0.75])
+    race = dict(base)
+    race.update({
+        "hosts": st.integers(2, 3),
+        "keyspace": st.sampled_from(["ks1", "ks1", "ks1", None]),
+        "use_delay": st.sampled_from([0.3, 0.3, 0.5, 0.1]),
+        "settle_connect": st.sampled_from([True, True, True, False]),
+        "events": st.lists(ev, max_size=2),
+        "race": st.fixed_dictionaries({
+            "h": st.integers(0, 1), "trigger": st.sampled_from(["rejoin", "rejoin", "bounce"]),
+            "si": st.integers(0, 1), "ks": st.sampled_from(["ks2", "ks2", "ks2", "ks1"]), "via": st.integers(0, 2),
+            "change_phase": st.sampled_from([0, 1, 1, 2]), "change_f": frac,
+            "shutdown_phase": st.sampled_from([0, 1, 2, 2, 3]), "shutdown_f": frac}),
     })
+    return st.one_of(st.fixed_dictionaries(base), st.fixed_dictionaries(base),
+                     st.fixed_dictionaries(race).map(_lay_out_race))
+
+
+def _lay_out_race(case):
+    """append to the generated prefix: the trigger of a pool (re)creation for a host other than the contact point, a USE
+    whose answer (= the moment the session's keyspace changes) lands in the chosen phase of that pool's construction,
+    and the advance that puts the shutdown into its chosen phase.  Phases, from the trigger: connecting (the host's
+    connect delay), selecting the keyspace found (use_delay), catching up with a changed keyspace (use_delay), after."""
+    r = case["race"]
+    n = case["hosts"]
+    hi = 1 + r["h"] % (n - 1)
+    k = 2 if case["pv"] < 3 else 1          # the v1/v2 pool opens (and prepares) two connections one after the other
+    d = (case["delays"][hi] or (0.0 if case["convict"] else 0.1)) * k
+    u = case["use_delay"]
+    bounds = [0.0, d, d + u * k, d + u * k + u, d + u * k + 2 * u]
+
+    def at(phase, f):
+        return round(bounds[phase] + f * (bounds[phase + 1] - bounds[phase]), 3)
+    t_use = round(at(r["change_phase"], r["change_f"]) - u, 3)
+    t_sd = at(r["shutdown_phase"], r["shutdown_f"])
+    trigger = [["leave", hi], ["join", hi]] if r["trigger"] == "rejoin" else \
+        [["node_down", hi], ["node_up", hi], ["status", "UP", hi]]
+    use = ["use", r["si"], r["ks"], r["via"]]
+    tail = []
+    if t_use < 0:
+        tail += [use, ["advance", -t_use]] + trigger
+        now = 0.0
+    else:
+        tail += trigger
+        now = 0.0
+        if t_use < t_sd:
+            if t_use > 0:
+                tail.append(["advance", t_use])
+            tail.append(use)
+            now = t_use
+    if t_sd > now:
+        tail.append(["advance", round(t_sd - now, 3)])
+    if 0 <= t_use and t_use >= t_sd:
+        case["after"] = ([["advance", round(t_use - t_sd, 3)]] if t_use > t_sd else []) + [use] + case["after"]
+    case["events"] = case["events"] + tail
+    return case
 
 
 def interpret(case, ctx):
@@ -96,11 +179,20 @@ def _run(case, ctx, sim):
     addrs = [S.addr(i) for i in range(n)]
     hold = {"on": False}
 
+    use_delay = case.get("use_delay") or 0.0
+    uses = []       # [connection, virtual time at which the node answers, number of USE requests seen on it so far]
+
     def on_request(node, conn, req):
         if conn.is_control_connection:
             return S.legacy_system_tables(node, conn, req)
         if req["op"] == "QUERY" and req.get("query", "").startswith("SELECT held"):
             return ("hold",)
+        if req["op"] == "QUERY" and req.get("query", "").strip().upper().startswith("USE "):
+            uses.append([conn, world.now + use_delay, 1 + sum(1 for u in uses if u[0] is conn)])
+            if use_delay:
+                # the node answers (the default way) use_delay virtual seconds later
+                world.call_at(world.now + use_delay, lambda: node.default(conn, req), "use-reply")
+                return ("drop",)
         return None
 
     for i, a in enumerate(addrs):
@@ -143,7 +235,7 @@ def _run(case, ctx, sim):
     connects = []
 
     def do_connect():
-        s = cluster.connect()
+        s = cluster.connect(case.get("keyspace"))
         sessions.append(s)
         return s
 
@@ -153,13 +245,13 @@ def _run(case, ctx, sim):
     qn = [0]
     futures = []
 
-    def run_query(si, a, held):
+    def run_query(si, a, held, text=None):
         if not sessions:
             return
         s = sessions[si % len(sessions)]
         policy.order = [a]
         qn[0] += 1
-        q = ("SELECT held FROM t /*%d*/" if held else "SELECT k FROM t /*%d*/") % qn[0]
+        q = text or ("SELECT held FROM t /*%d*/" if held else "SELECT k FROM t /*%d*/") % qn[0]
         try:
             futures.append(sim.call(s.execute_async, q))
         except S.StepBudgetExceeded:
@@ -209,6 +301,10 @@ def _run(case, ctx, sim):
                 connects.append(sim.spawn(do_connect))
         elif kind == "query":
             run_query(0, addrs[ev[1] % n], ev[2])
+        elif kind == "use":
+            # what Session.set_keyspace() sends (without blocking this thread on the answer): when the node's answer
+            # arrives the session's keyspace changes and every pool re-selects it on its connections
+            run_query(ev[1], addrs[ev[3] % n], False, text="USE %s" % ev[2])
         elif kind == "die_now":
             # the peer closes a pool connection that has a request in flight; nothing runs before the next event (or
             # the shutdown): the pool's reaction (host down / replacement task) is still queued at that moment
@@ -230,10 +326,31 @@ def _run(case, ctx, sim):
     # ---- shutdown, as another client thread
     def in_progress():
         return [r for r in starts if r[3] is None or (not r[3].is_closed and not r[3].connected_event.is_set())]
+    def selecting():
+        """start records of open connections that are not (yet) part of any session's pool -- a pool under construction,
+        a replacement connection -- and have an unanswered USE: [record, number of USEs sent on it]"""
+        out = []
+        for u in uses:
+            c = u[0]
+            if u[1] <= world.now or c.is_closed or any(o[0][3] is c for o in out):
+                continue
+            if any(pc is c for s_ in sessions for pool in list(s_._pools.values()) for pc in pool.get_connections()):
+                continue
+            out.extend([r, u[2]] for r in starts if r[3] is c)
+        return out
     target = case["shutdown"]
     if target == "session" and not sessions:
         target = "cluster"
     busy = in_progress()
+    choosing = selecting()
+    if any(u[1] > world.now and not u[0].is_closed for u in uses):
+        ctx.label("cls:use-in-flight-at-shutdown")
+    if choosing:
+        ctx.label("cls:use-in-flight-on-uninstalled-connection-at-shutdown")
+        for r, k in choosing:
+            ctx.label("selecting:" + str(r[2]))
+        if any(k >= 2 for r, k in choosing):
+            ctx.label("cls:keyspace-catch-up-at-shutdown")
     ret = {}
     victim = sessions[0] if target == "session" else None
     for s_ in sessions:
@@ -258,7 +375,11 @@ def _run(case, ctx, sim):
     ctx.label("shutdown:" + target, "in-progress=%d" % min(len(busy), 3), "pv=%d" % case["pv"])
     for r in busy:
         ctx.label("busy:" + str(r[2]))
-    ctx.nontrivial(bool(busy))
+    if case.get("race"):
+        ctx.label("race:change-phase=%d" % case["race"]["change_phase"], "race:shutdown-phase=%d" % case["race"]["shutdown_phase"],
+                  "race:" + case["race"]["trigger"])
+    ctx.label("keyspace=%s" % ("yes" if case.get("keyspace") else "none"), "use_delay=%s" % (case.get("use_delay") or 0.0))
+    ctx.nontrivial(bool(busy) or bool(choosing))
 
     def kind_of(c):
         """[who opened it, state of the session whose pool holds it] + phase text for the message"""
@@ -267,6 +388,8 @@ def _run(case, ctx, sim):
             if r[3] is c:
                 opener = str(r[2])
                 phase = ("in progress when shutdown was called" if any(b is r for b in busy) else
+                         "selecting its keyspace, not yet part of a pool, when shutdown was called"
+                         if any(x[0] is r for x in choosing) else
                          "opened before shutdown was called" if r[0] < t_call else "started after shutdown was called")
         owner = "no-owner"
         seen = []
@@ -358,6 +481,7 @@ def _run(case, ctx, sim):
         target = "cluster"
         t_call = world.now
         busy = in_progress()
+        choosing = selecting()
         starts_at_call = len(starts)
         sd = sim.spawn(do_shutdown)
         sim.settle()
